@@ -563,6 +563,42 @@ M("c03-rest-keeps-last-only", "C03", "src/ckl/values.py",
   "rest parameter keeps only the last surplus argument")
 
 
+# ---- C14
+M("c14-tab-in-identifier", "C14", "src/ckl/lexer.py",
+  '''                if ch in "()+-*/%[]<>=,;!\\"' \\t\\r\\n#":
+                    if token == "TRUE":''',
+  '''                if ch in "()+-*/%[]<>=,;!\\"' \\r\\n#":
+                    if token == "TRUE":''', "TAB does not end an identifier")
+M("c14-hex-lowercase-only", "C14", "src/ckl/lexer.py",
+  '''                if ch in "0123456789abcdefABCDEF_":
+                    token += ch''', '''                if ch in "0123456789abcdef_":
+                    token += ch''', "upper-case hex digits are not accepted")
+M("c14-ne-alt-means-equals", "C14", "src/ckl/parser.py",
+  '''        elif relop in ["==", "is"]:
+            cmp = func_call("equals", lhs, rhs, pos)''',
+  '''        elif relop in ["==", "is", "<>"]:
+            cmp = func_call("equals", lhs, rhs, pos)''',
+  "<> compares for equality")
+M("c14-dq-newline-escape", "C14", "src/ckl/lexer.py",
+  '''            elif state == 31:  # double quotes escapes
+                if ch == "n":
+                    token += "\\n"
+                    state = 3''', '''            elif state == 31:  # double quotes escapes
+                if ch == "n":
+                    token += "n"
+                    state = 3''', "\\n is not an escape in double-quoted strings")
+M("c14-bin-underscore", "C14", "src/ckl/lexer.py",
+  '''                        Token(str(int(token.replace("_", ""), 2)), "int", here)''',
+  '''                        Token(str(int(token.split("_")[0], 2)), "int", here)''',
+  "binary literal stops at the first underscore")
+M("c14-comment-swallows-crlf-line", "C14", "src/ckl/lexer.py",
+  '''            elif state == 9:  # comment
+                if ch == "\\n":
+                    state = 0''', '''            elif state == 9:  # comment
+                if ch == "\\n" and self.script[pos - 2:pos - 1] != "\\r":
+                    state = 0''', "a comment ended by CRLF continues on the next line")
+
+
 def run(cmd, cwd, env=None, timeout=3600):
     t0 = time.time()
     try:
